@@ -71,6 +71,37 @@ def layouts_vs_model(chk: core.Check, n_cases):
     return diffs
 
 
+def exact_half_turn(chk: core.Check):
+    """turning angle exactly pi in floating point (phi0 = 0.0, pivots on the x axis beyond the circle centre: atan2(0.0, negative) is
+    exactly pi in libm and numpy alike): the array kinds must take the same side of the (-pi, pi] window as the single-track object"""
+    import awkward as ak
+    import pybes3
+    rows = []
+    for kappa in (-2.0, -0.5, 1.0, 4.0):
+        r = -hc.ALPHA / kappa                       # signed radius: centre at (dr + r, 0)
+        for dr in (0.05, 0.0, -0.125):
+            cx = dr + r
+            for far in (1.5, 40.0):
+                x = cx + far * abs(r) if r > 0 else cx - far * abs(r)
+                rows.append((dr, 0.0, kappa, -1.0, 0.75, x, 2.0))
+    par = np.array(rows)
+    for nest in (None, [[5, 0, len(rows) - 5]]):
+        h = dict(dr=par[:, 0], phi0=par[:, 1], kappa=par[:, 2], dz=par[:, 3], tanl=par[:, 4], piv=np.zeros((len(rows), 3)), new=np.column_stack([par[:, 5], np.zeros(len(rows)), par[:, 6]]))
+        arr = hc.impl_arr(h, nest=nest)
+        mk = (lambda a: ak.unflatten(ak.Array(a), nest[0])) if nest else ak.Array
+        res_all = arr.change_pivot(ak.zip({"x": mk(h["new"][:, 0]), "y": mk(h["new"][:, 1]), "z": mk(h["new"][:, 2])}, with_name="Vector3D"))
+        for form in ("per-track-array", "tuple"):
+            for i, row in enumerate(rows):
+                o = pybes3.helix_obj(*row[:5]).change_pivot((row[5], 0.0, row[6]))
+                res = arr.change_pivot((row[5], 0.0, row[6])) if form == "tuple" else res_all
+                g = {k: float(ak.to_numpy(ak.flatten(res[k], axis=None))[i]) for k in ("dr", "phi0", "dz")}
+                chk.count(1, key=f"half-turn-{form}-{nest is not None}")
+                if not (hc.close(g["dr"], o.dr, atol=1e-9) and hc.circ_close(g["phi0"], o.phi0, 1e-9) and hc.close(g["dz"], o.dz, atol=1e-7)):
+                    chk.failing_input("track of a helix array after change_pivot vs the single-track object (turning angle exactly pi)", {"helix": list(row[:5]), "old_pivot": [0, 0, 0], "new_pivot": [row[5], 0.0, row[6]], "pivot_form": form, "nested": nest is not None},
+                                      g, {"dr": o.dr, "phi0": o.phi0, "dz": o.dz}, "each track gives exactly what the single-track helix object gives for that track alone")
+                    return
+
+
 def per_track(chk: core.Check, n_lists: int):
     import awkward as ak
     import pybes3
@@ -293,6 +324,8 @@ def main(chk: core.Check) -> int:
         per_track(chk, 1200 if thorough else 150)
         if not chk.failing:
             dtype_and_isolation(chk, 600 if thorough else 80)
+        if not chk.failing:
+            exact_half_turn(chk)
     except Exception as ex:
         import traceback
         chk.obligation_broken("correspondence", "per-track harness", f"{type(ex).__name__}: {ex}\n{traceback.format_exc()[-1800:]}")
